@@ -28,6 +28,8 @@ pub(super) struct Chain {
     conflicting1: v2::FinalBlock,
     /// block 2 with a certificate that does not verify
     pub(super) invalid2: v2::FinalBlock,
+    /// the genuine certificate of block 3 attached to another payload (payload does not hash to the certified header)
+    pub(super) swapped3: v2::FinalBlock,
 }
 
 pub(super) fn chain(seed: u64, len: usize) -> Chain {
@@ -44,7 +46,9 @@ pub(super) fn chain(seed: u64, len: usize) -> Chain {
     let conflicting1 = w.final_block(&pc, &w.commit_qc(&w.commit_vote(9, 1, &pc), full));
     let pi = Payload(vec![0x12, 7]);
     let invalid2 = w.final_block(&pi, &w.commit_qc(&w.commit_vote(3, 2, &pi), 0b001));
-    Chain { w, blocks, conflicting1, invalid2 }
+    let mut swapped3 = blocks.get(3).cloned().unwrap_or_else(|| blocks[blocks.len() - 1].clone());
+    swapped3.payload = Payload(vec![0x5A, 0x5A, 3]);
+    Chain { w, blocks, conflicting1, invalid2, swapped3 }
 }
 
 #[derive(Clone, Debug, PartialEq)]
@@ -208,6 +212,8 @@ fn run_once(ch: &Ch, chn: &Chain, scenario: u32) -> ExecResult {
                         vec![chn.blocks[0].clone().into(), chn.blocks[1].clone().into(), chn.blocks[2].clone().into()],
                         vec![chn.blocks[1].clone().into(), chn.conflicting1.clone().into(), chn.blocks[3].clone().into()],
                         vec![chn.invalid2.clone().into(), chn.blocks[0].clone().into()],
+                        // the genuine certificate of block 3 with a foreign payload, offered before the real block 3
+                        vec![chn.swapped3.clone().into()],
                     ],
                     // blocks 2 and 3 never come through queue_block: only the side channel brings them
                     _ => vec![vec![chn.blocks[0].clone().into(), chn.blocks[1].clone().into()], vec![chn.blocks[4].clone().into()], vec![chn.blocks[1].clone().into()]],
@@ -708,13 +714,13 @@ pub fn run(args: &Args) -> Report {
         rep.machinery_errors.push(format!("vacuous: prunes {prunes}, restarts that lost queued blocks {restarts_lossy}, reads served by storage {storage_reads}"));
     }
     // blocks received from peers over real gossip connections (gossip/runner.rs): only certified blocks of the chain are stored
-    let net_cov = super::gossipnet::report_fetch(&mut rep, args.seed, &["foreign_block_stored"], &|s| ["honest_peer", "wrong_block_number_then_other_peer", "bad_certificate_then_other_peer"].contains(&s.name));
+    let net_cov = super::gossipnet::report_fetch(&mut rep, args.seed, &["foreign_block_stored"], &|s| ["honest_peer", "wrong_block_number_then_other_peer", "bad_certificate_then_other_peer", "certificate_with_foreign_payload_then_other_peer"].contains(&s.name));
     rep.coverage = json!({
         "blocks_from_peers_part": net_cov,
         "states": execs, "transitions": points, "traces_validated_against_impl": execs,
         "evaluations": execs, "distinct_nontrivial": distinct,
         "samples": [
-            {"scenario": 1, "case": "four submitters: [a pre-genesis-style block (external justification only) numbered genesis.first_block], [b0,b1,b2], [b1, a conflicting certified block 1, b3], [block 2 with an under-weight certificate, b0]; persistence completes writes one at a time or lags"},
+            {"scenario": 1, "case": "five submitters: [a pre-genesis-style block (external justification only) numbered genesis.first_block], [b0,b1,b2], [b1, a conflicting certified block 1, b3], [block 2 with an under-weight certificate, b0], [the certificate of b3 attached to a foreign payload]; persistence completes writes one at a time or lags"},
             {"scenario": 2, "case": "submitters [b0,b1], [b4], [b1]; blocks 2-3 only arrive through a side-channel persistence jump that overtakes the queue"},
             {"scenario": 3, "case": "submitters [b0,b1,b2], [b1,b2,b3]; persistence completes a write / prunes the oldest block / the node crashes (in-flight writes lost); a new manager over the durable image; a syncing peer offers b0..b4 again"},
             {"scenario": 4, "case": "108 pre-genesis blocks (cache capacity 100 + 8) submitted in order; persistence completes 1 or 60 writes or prunes all but the newest block at each quiescent point; reads of first / middle / last queued block"},
